@@ -295,18 +295,28 @@ func e2eRegen(model map[string]interface{}) (bool, string) {
 		keys = append(keys, k)
 	}
 	sort.Strings(keys)
+	// (a write interrupted inside the package name leaves a valid clause of ANOTHER package)
+	states["package clause cut inside the name"] = "package e2\n"
+	keys = append(keys, "package clause cut inside the name")
 	for _, k := range keys {
-		dir := filepath.Join(tmp, "m")
-		os.RemoveAll(dir)
-		writeModule(dir, e2eSetup)
-		os.WriteFile(filepath.Join(dir, "setup.gen.go"), []byte(states[k]), 0644)
-		rc, out := run(dir, "setup.go")
-		got, _ := os.ReadFile(filepath.Join(dir, "setup.gen.go"))
-		fmt.Fprintf(&log, "output path holds: %s -> exit %d\n", k, rc)
-		if rc != 0 {
-			dev("run fails when the output path holds %s: %s", k, clip(out, 300))
-		} else if string(got) != string(want) {
-			dev("output differs from a run on an empty path when the output path held %s", k)
+		// the output path is given by default, or spelled as an absolute path
+		for _, spelling := range []string{"default", "absolute -out"} {
+			dir := filepath.Join(tmp, "m")
+			os.RemoveAll(dir)
+			writeModule(dir, e2eSetup)
+			os.WriteFile(filepath.Join(dir, "setup.gen.go"), []byte(states[k]), 0644)
+			args := []string{"setup.go"}
+			if spelling != "default" {
+				args = []string{"-out", filepath.Join(dir, "setup.gen.go"), "setup.go"}
+			}
+			rc, out := run(dir, args...)
+			got, _ := os.ReadFile(filepath.Join(dir, "setup.gen.go"))
+			fmt.Fprintf(&log, "output path (%s) holds: %s -> exit %d\n", spelling, k, rc)
+			if rc != 0 {
+				dev("run (%s) fails when the output path holds %s: %s", spelling, k, clip(out, 300))
+			} else if string(got) != string(want) {
+				dev("output (%s) differs from a run on an empty path when the output path held %s", spelling, k)
+			}
 		}
 	}
 	// twice in a row
@@ -325,6 +335,17 @@ func e2eRegen(model map[string]interface{}) (bool, string) {
 	after, _ := os.ReadFile(filepath.Join(dir, "setup.go"))
 	if rc == 0 || string(after) != e2eSetup {
 		dev("-out naming the input file: exit %d, input file modified=%v: %s", rc, string(after) != e2eSetup, clip(out, 200))
+	}
+	// -out naming a symbolic link (in another directory) to the input file
+	dir = filepath.Join(tmp, "outlink")
+	writeModule(dir, e2eSetup)
+	os.MkdirAll(filepath.Join(dir, "linked"), 0755)
+	if err := os.Symlink(filepath.Join("..", "setup.go"), filepath.Join(dir, "linked", "alias.go")); err == nil {
+		rc, out = run(dir, "-out", filepath.Join("linked", "alias.go"), "setup.go")
+		after, _ = os.ReadFile(filepath.Join(dir, "setup.go"))
+		if rc == 0 || string(after) != e2eSetup {
+			dev("-out naming a link to the input file: exit %d, input file modified=%v: %s", rc, string(after) != e2eSetup, clip(out, 200))
+		}
 	}
 	return deviations > 0, log.String()
 }
